@@ -138,14 +138,14 @@ claim('C15', 'Coq proof (classification = specification by case analysis; counte
       'DESIGN.md sec. 3 C15')
 claim('C16', 'Coq proof (nested induction over the argument universe; frame / blame / stability of resolution; slice arithmetic via C17) + differential evaluation of the model in coqc on exhaustive small and random argument structures + real jug execute/invalidate runs',
       'Theorems for ALL argument structures and stores (Props/C16.v): value() of base[idx] / Tasklet(base, f) / iteratetask / return_tuple / CustomHash / NoHash / containers '
-      'is the operation applied to the values at any nesting, indices being arbitrary arguments (tasks, tasklets); an object value() hands over as it is (instances of list/tuple/dict subclasses - namedtuple, OrderedDict, defaultdict ...) reaches the function unchanged whatever the store holds, while the tasks inside it that the walk declares are dependencies: its consumer waits for them and is invalidated with them (C16_opaque_unchanged / _declared_waits / _declared_invalidated); sets/frozensets are looked into by neither; a mapped sequence is the concatenation of its blocks, '
+      'is the operation applied to the values at any nesting, indices being arbitrary arguments (tasks, tasklets); an object value() hands over as it is (instances of list/tuple/dict subclasses - namedtuple, OrderedDict, defaultdict ...) reaches the function unchanged whatever the store holds, while the tasks inside it that the walk declares are dependencies: its consumer waits for them and is invalidated with them (C16_opaque_unchanged / _declared_waits / _declared_invalidated); sets/frozensets are looked into by neither; a consumer\'s outcome is a function of its own argument terms only, and two consumers of a free function can share a result only if their own arguments resolve alike (C16_consumer_depends_on_own_arguments / C16_shared_result_needs_equal_inputs); a mapped sequence is the concatenation of its blocks, '
       'a slice (any range, slices of slices) is Python\'s list slice of the whole value; resolution reads the store only at declared dependencies, a missing result met during '
       'resolution is a declared dependency (can_run => never dies in load), outcomes are stable under store extension; Task.dependencies\' walk declares exactly the tasks '
       'occurring underneath (bases, indices, blocks, CustomHash, containers); hence a consumer depends on, and is invalidated with (C09), every task underneath.  '
       'Tie: every argument tree of <= 3/4 nodes and random deep compositions as real jug objects, value() outcome and dependencies() compared with the model in coqc; '
-      'direct oracles (reference evaluation, reads within dependencies, can_run, store keys) and real `jug execute`/`jug invalidate` on a dict store.',
+      'direct oracles (reference evaluation, reads within dependencies, can_run, store keys) and real `jug execute`/`jug invalidate` on a dict store; consumer-hash section: for sibling views over one root task (same last operation, different path above) and random pairs inside a hash-safe fragment (int/str/None/slice and task-valued indices, iteratetask, return_tuple, Tasklet, identity, CustomHash of those, mapped sequences/slices/elements), Task.hash() of consumers built with one function is equal iff the derived expressions are the same; after a real `jug execute` every consumer has its OWN stored result = f(reference value of its own argument) and the store holds one entry per distinct consumer.',
       'Kernel + vm_compute; results are plain Python values (indexing into str/bytes, bool indices, return_tuple over dict/str are outside the model and only tested directly); '
-      'container-subclass instances are seen by the model as their base kind when plain and as `AOpaque declared v` when they hold tasks; their Python type is checked by the direct oracles; mapped-sequence theorems assume what jug.mapreduce.map builds (blocks = break_up of the values, map_step >= 1; C17); exception kinds not distinguished; '
+      'NoHash (equal hashes by design) and the hash limitations D1/D24 (containers, subclass instances) are outside the consumer-hash section and belong to C07/C08; container-subclass instances are seen by the model as their base kind when plain and as `AOpaque declared v` when they hold tasks; their Python type is checked by the direct oracles; mapped-sequence theorems assume what jug.mapreduce.map builds (blocks = break_up of the values, map_step >= 1; C17); exception kinds not distinguished; '
       'harness: spec generator/realiser, reference evaluator, interning.',
       'DESIGN.md sec. 3 C16')
 
